@@ -8,7 +8,9 @@ EXPLANATION = (
     "event set must be left as it was found: the lower bound used by the add guard must not have been advanced and a same-instant "
     "event taken from the front of the FIFO must go back to the front — today the fetch + generic add put-back violates both "
     "(KNOWN FINDING F4, keyed by that call site); (R3) the limit path writes neither the clock nor the dispatched-event counter "
-    "(a paused runtime reports the last dispatched event); (R4) after fetching, stop-or-dispatch depends on limit.applies alone; (R5) the put-back's placement rule: an event at the set's current instant goes to the same-instant FIFO (drained first) independent of anything else stored. Decides these necessary conditions only; not equivalence over all step schedules.")
+    "(a paused runtime reports the last dispatched event); (R4) after fetching, stop-or-dispatch depends on limit.applies alone; (R5) the put-back's placement rule: an event at the set's current instant goes to the same-instant FIFO (drained first) independent of anything else stored. "
+    '(R1 also: the wrappers do not touch the clock or the event counter themselves.) '
+    "Decides these necessary conditions only; not equivalence over all step schedules.")
 ASSUMPTIONS = ["C11.R1/R2 (limit tables and ordinal) hold"]
 USES_B = True
 
